@@ -52,6 +52,17 @@ func (st *Transfer) hashSearch(targets []target, tagTable map[uint16]int, head r
 	h := md4.New()
 	binary.Write(h, binary.LittleEndian, st.Seed)
 
+	if fi.Size() == 0 {
+		// Nothing to search for in an empty file (tridge rsync only calls
+		// hash_search for len > 0): send the end-of-data token and the
+		// whole-file checksum.
+		if err := st.matched(h, ms, head, 0, -1); err != nil {
+			return err
+		}
+		_, err := st.Conn.Writer.Write(h.Sum(nil))
+		return err
+	}
+
 	// The following quotes are citations from
 	// https://www.samba.org/~tridge/phd_thesis.pdf, section 3.2.6 The
 	// signature search algorithm (PDF page 64).
